@@ -133,6 +133,19 @@ class Ctx:
         if r == 'unsat':
             raise PathInfeasible()
 
+    def assume_all(self, cs, why=None):
+        """Several assumptions with a single feasibility check at the end."""
+        if why:
+            self.assumptions.add(why)
+        for c in cs:
+            c = _b(c)
+            if z3.is_false(c):
+                raise PathInfeasible()
+            self.add(c)
+        r, _ = self._check([], FORK_TIMEOUT_MS)
+        if r == 'unsat':
+            raise PathInfeasible()
+
     def feasible(self, c, timeout=FORK_TIMEOUT_MS):
         """sat / unknown -> True (over-approximation, used for exploration only)."""
         c = _b(c)
@@ -151,6 +164,21 @@ class Ctx:
         if z3.is_false(c):
             return 'unsat', None
         r, m = self._check([c], min(timeout, 10000))
+        defs = self.extra.get('absdefs')
+        if defs and r != 'unsat':
+            # abstracted products: the query was not refuted without their definitions -> exact re-run
+            r, m = self._check([c] + list(defs), min(timeout, 20000))
+            if r == 'unknown':
+                t = time.time()
+                s = z3.Solver()
+                s.add(self.cons)
+                s.add(defs)
+                s.add(c)
+                rr = timed_check(s, timeout)
+                self.stats.queries += 1
+                self.stats.solver_s += time.time() - t
+                return str(rr), (s.model() if rr == z3.sat else None)
+            return r, m
         if r == 'unknown':
             t = time.time()
             s = z3.Solver()
@@ -167,6 +195,22 @@ class Ctx:
         out = {}
         for k, v in self.inputs.items():
             out[k] = _pyval(m.eval(v, model_completion=True))
+        # interpretations of the uninterpreted functions (needed to replay UF-dependent paths)
+        ufs = {}
+        for (name, n), f in _UF.items():
+            try:
+                fi = m[f]
+            except Exception:
+                fi = None
+            if fi is None:
+                continue
+            try:
+                ent = [[[_pyval(fi.entry(i).arg_value(j)) for j in range(n)], _pyval(fi.entry(i).value())] for i in range(fi.num_entries())]
+                ufs[name] = dict(entries=ent, default=_pyval(fi.else_value()))
+            except Exception:
+                pass
+        if ufs:
+            out['__uf__'] = ufs
         return out
 
     def solve_generalized(self, c, subst, timeout=PROVE_TIMEOUT_MS, incremental=False):
@@ -234,7 +278,10 @@ class Ctx:
         if kind in ('oob', 'uninit', 'race'):
             key = self.extra.get('keyprefix', '') + (key or what)
         if cond is None:
-            r, m = self._check([], FORK_TIMEOUT_MS)
+            if self.extra.get('absdefs'):
+                r, m = self.solve(z3.BoolVal(True))      # model consistent with the abstracted products
+            else:
+                r, m = self._check([], FORK_TIMEOUT_MS)
             model = self.model_inputs(m) if m is not None else {}
             self.events.append(dict(kind=kind, what=what, key=key or what, model=model, info=info or {}))
             return True
@@ -365,6 +412,23 @@ def explore(fn, max_paths=20000, roots=None, catch=()):
             exc = 'stopped'
         except catch as e:  # noqa
             exc = e
+        except (ModelGap, Inconclusive, AssertionError):
+            CTX = None
+            raise
+        except Exception as e:
+            # an unexpected exception out of the code under test on a feasible path is a finding
+            # in its own right (replayed like any other); harness bugs surface as failed replays
+            import traceback
+            tb = traceback.extract_tb(e.__traceback__)
+            where = [f for f in tb if '/abacusnbody/' in f.filename]
+            if not where:
+                CTX = None
+                raise
+            site = f'{where[-1].filename.split("abacusnbody/")[-1]}:{where[-1].name}:{where[-1].lineno}'
+            c.report('violation', f'the code raised {type(e).__name__}: {e} at {site}', key=f'raises:{type(e).__name__}:{where[-1].name}',
+                     info=dict(site=site))
+            c.events[-1]['key'] = c.extra.get('keyprefix', '') + c.events[-1]['key']
+            exc = 'raised'
         finally:
             CTX = None
         c.stats.paths = 1
@@ -785,10 +849,36 @@ def _named_product(x, y):
     return memo[key][2]
 
 
+def _abstract_product(x, y):
+    """Opt-in (ctx.extra['abstract_products']): a product of two non-constant real terms
+    becomes a fresh variable (same factors -> same variable, commutatively); the defining
+    equation is kept in ctx.extra['absdefs'] and is NOT given to the solver for branch
+    feasibility (an over-approximation: extra paths are harmless) nor for the first attempt of
+    a deciding query.  A deciding query that is not refuted without the definitions is
+    re-run with them, so verdicts are exact."""
+    c = CTX
+    memo = c.extra.setdefault('absmemo', {})
+    a, b = (x, y) if x.get_id() <= y.get_id() else (y, x)
+    key = (a.get_id(), b.get_id())
+    if key not in memo:
+        v = c.fresh(z3.RealSort(), 'mul')
+        c.extra.setdefault('absdefs', []).append(v == a * b)
+        memo[key] = (a, b, v)
+    return memo[key][2]
+
+
 def _real_op(x, y, op):
     S = lambda e: Sym(z3.simplify(e))
     if op == 'add': return S(x + y)
     if op == 'sub': return S(x - y)
+    if op in ('mul', 'div') and CTX is not None and CTX.extra.get('abstract_products'):
+        xs, ys = z3.simplify(x), z3.simplify(y)
+        if not z3.is_rational_value(ys) and not (op == 'mul' and z3.is_rational_value(xs)):
+            if op == 'div':
+                ys = z3.RealVal(1) / ys
+            if z3.is_rational_value(xs):
+                return S(xs * ys)
+            return Sym(_abstract_product(xs, ys))
     if op == 'mul':
         if CTX is not None and CTX.extra.get('name_products'):
             xs, ys = z3.simplify(x), z3.simplify(y)
